@@ -190,6 +190,22 @@ fn build(p: &Program, order: &[usize]) -> (Library, Vec<Ptr<Instance>>) {
         row.instances.push(r0);
         let row: Ptr<Cell> = Ptr::new(Cell::from(row));
         parent.instances.add(Instance { inst_name: "rowinst".into(), cell: row, loc: Place::Abs(Xy::new(PrimPitches::x(3_000), PrimPitches::y(3_000))), reflect_horiz: false, reflect_vert: false });
+        // ... and, every other time, a second, DISTINCT cell that happens to carry the same name (a vendor's `row` next to the user's),
+        // with a relative placement of its own: cells are told apart by identity, not by name
+        if p.specs.len() % 4 == 0 {
+            let mut row2 = Layout::new("row", 0, Outline::rect(5_000, 5_000).unwrap());
+            let q0 = Ptr::new(Instance { inst_name: "r0".into(), cell: cells[0].clone(), loc: Place::Abs(Xy::new(PrimPitches::x(5), PrimPitches::y(5))), reflect_horiz: false, reflect_vert: false });
+            let q1 = Ptr::new(Instance { inst_name: "r1".into(), cell: cells[0].clone(), loc: Place::Rel(RelativePlace { to: Placeable::Instance(q0.clone()), side: Side::Right, align: Align::Side(Side::Bottom), sep: Separation::new(None, None, None) }), reflect_horiz: false, reflect_vert: false });
+            row2.instances.push(q1);
+            row2.instances.push(q0);
+            let row2: Ptr<Cell> = Ptr::new(Cell::from(row2));
+            parent.instances.add(Instance { inst_name: "rowinst2".into(), cell: row2, loc: Place::Abs(Xy::new(PrimPitches::x(3_000), PrimPitches::y(-6_000))), reflect_horiz: false, reflect_vert: false });
+        }
+    }
+    // a bystander: an absolutely placed instance of a cell that has no view at all yet (an interface-only cell), which nothing is placed
+    // relative to. Nothing needs its size, so it cannot stop the rest from being placed
+    if p.specs.len() % 5 == 2 {
+        parent.instances.add(Instance { inst_name: "ghost".into(), cell: Ptr::new(Cell::new("interface_only")), loc: Place::Abs(Xy::new(PrimPitches::x(-9_000), PrimPitches::y(-9_000))), reflect_horiz: false, reflect_vert: false });
     }
     // the cell under test may carry an abstract view next to its layout (Cell::from_views / add_view): its layout must be placed all the same
     if p.specs.len() % 3 == 1 {
@@ -272,7 +288,15 @@ impl C09 {
         }
         for i in lay.instances.iter() {
             let i = i.read().unwrap();
-            if i.inst_name == "rowinst" {
+            if i.inst_name == "ghost" {
+                if !matches!(i.loc, Place::Abs(_)) {
+                    cx.violation(&format!("{}|bystander-left-relative", class), json!({}));
+                    return None;
+                }
+                cx.count("programs_with_a_viewless_bystander");
+                continue;
+            }
+            if i.inst_name.starts_with("rowinst") {
                 // the unregistered sub-cell must have been placed too: r1 to the right of r0, bottom-aligned
                 let row = i.cell.read().unwrap();
                 let want_r1 = (5 + p.sizes[0].0, 5);
